@@ -8,8 +8,19 @@ import sys
 import time
 
 VERIF = os.path.dirname(os.path.dirname(os.path.abspath(__file__)))
-COQ = os.path.join(VERIF, "coq")
 REPO = os.environ.get("VERIF_REPO", "/repo")
+SCRATCH = os.path.realpath(REPO) != "/repo"
+# Scratch mode (VERIF_REPO points at a worktree, e.g. a mutant under /tmp): the Coq tree is copied to a private
+# directory so that regenerated tables and build output never touch /verif/coq; evidence and replays go there too.
+if SCRATCH:
+    OUT = os.path.join("/tmp", "verif-scratch-" + hashlib.sha1(os.path.realpath(REPO).encode()).hexdigest()[:10])
+    COQ = os.path.join(OUT, "coq")
+    os.makedirs(OUT, exist_ok=True)
+    subprocess.run(["rsync", "-a", "--delete", "--exclude", "corr/", "--exclude", ".lock",
+                    os.path.join(VERIF, "coq") + "/", COQ + "/"], check=True)
+else:
+    OUT = VERIF
+    COQ = os.path.join(VERIF, "coq")
 COQFLAGS = ["-Q", COQ, "PV"]
 NPROC = int(os.environ.get("VERIF_JOBS", "12"))
 
